@@ -2,7 +2,7 @@ from run import Job
 
 MANIFEST = dict(
     category="other",
-    text="The greedy max-min specification of MaxDis is decided on its real body for bounded object counts with arbitrary (oracle) distance values, "
+    text="The greedy max-min specification is decided on the real bodies of MaxDis and MaxDis_Fast for bounded object counts with arbitrary (oracle) distance values, "
          "hence for every metric: indices in range, pairwise distinct, requested count; the first element is the object farthest from the centroid; "
          "every further element maximises, over the objects not yet chosen, the minimum distance to those already chosen (first maximum on ties). "
          "The k-means labelling partition among threads is decided under C13 (slice_getLabels_).",
